@@ -396,6 +396,101 @@ class _YM:
         self.o, self.name = o, name
 
 
+def check_save_writes(ctx: Ctx):
+    """R19.6 (writes): after _save_yaml returns, the file at the given path holds the dump of the given
+    object - whether the path did not exist or held an older configuration, whether it is given as str or
+    Path - and no other file is left behind.  Run on the abstract file system: yaml.dump(data, target)
+    puts the marker of `data` into the file `target` names (a path or an open handle); temporary files,
+    os.replace / copies / unlinks are followed."""
+    from ..absval import enumerate_paths
+    from .fsrun import FS, FSInterp, FileH, PathV
+
+    prog = ctx.prog
+    f = prog.func("utils.config:_save_yaml")
+    ps = [p.name for p in f.call_params]
+    dp = next((n for n in ps if "data" in n.lower() or "obj" in n.lower()), None)
+    fp = next((n for n in ps if "file" in n.lower() or "path" in n.lower()), None)
+    cp = next((n for n in ps if "class" in n.lower()), None)
+    if dp is None or fp is None:
+        raise AnchorMissing(f"{f.qual}: parameters {ps}")
+    DATA = Sym("ARG_data")
+
+    class YamlFS(FSInterp):
+        def external_call(self, name, args, kwargs, node):
+            if name.split(".")[-1] == "YAML" and "yaml" in name.lower():
+                return _YamlV(kwargs.get("typ", args[0] if args else "rt"))
+            return super().external_call(name, args, kwargs, node)
+
+        def get_attr(self, base, attr, node):
+            if isinstance(base, _YamlV):
+                if attr in ("load", "dump", "register_class"):
+                    return _YM(base, attr)
+                return base.attrs.get(attr, Sym(f"yaml.{attr}"))
+            return super().get_attr(base, attr, node)
+
+        def store_attr_hook(self, base, attr, v, node):
+            if isinstance(base, (_YamlV, Sym)):
+                if isinstance(base, _YamlV):
+                    base.attrs[attr] = v
+                return
+            return super().store_attr_hook(base, attr, v, node)
+
+        def apply(self, fv, args, kwargs, node):
+            if isinstance(fv, _YM):
+                if fv.name == "dump" and len(args) >= 2:
+                    tgt = args[1]
+                    path = tgt.path if isinstance(tgt, FileH) else tgt.s if isinstance(tgt, PathV) else tgt if isinstance(tgt, str) else None
+                    if path is None or (isinstance(tgt, FileH) and tgt.mode[0] not in "wa"):
+                        raise Undecided(f"yaml.dump into {tgt!r}")
+                    self.root.fs.files[path] = [["<yaml>", repr(args[0])]]
+                    return None
+                if fv.name == "register_class" and args:
+                    return args[0]
+                return None
+            return super().apply(fv, args, kwargs, node)
+
+        def load_global(self, name, node):
+            if name == "supported_helper_classes":
+                return [Sym("HELPER_CLASS")]
+            return super().load_global(name, node)
+
+        def isinstance_hook(self, v, klass, node):
+            if v is DATA:
+                return True  # the object handed in is an instance of the class it is saved as
+            return super().isinstance_hook(v, klass, node)
+
+    n = 0
+    for existing in (False, True):
+        for as_str in (False, True):
+            target = "/d/cfg.yaml"
+            fss = []
+
+            def make(prefix):
+                fs = FS({target: [["<yaml>", "OLD"]]} if existing else {})
+                fss.append(fs)
+                args = {dp: DATA, fp: target if as_str else PathV(target)}
+                if cp:
+                    args[cp] = Sym("REGISTERED_CLASS")
+                return YamlFS(prog, f, args, fs=fs, prefix=prefix)
+
+            construct = f"{f.qual}:writes[target {'exists' if existing else 'absent'}, given as {'str' if as_str else 'Path'}]"
+            try:
+                outs = enumerate_paths(make, max_paths=32)
+            except Undecided as e:
+                ctx.undecided("R19.6", f, f.node, construct, f"not evaluable on the abstract file system: {e}")
+                continue
+            for out, fs in zip(outs, fss):
+                if out.kind == "raise":
+                    continue
+                n += 1
+                got = fs.files.get(target)
+                left = sorted(k for k in fs.files if k != target)
+                dtxt = "; ".join(f"{norm(nd) if isinstance(nd, ast.AST) else '?'}={d}" for nd, v, d in out.decisions)
+                ctx.decide("R19.6", f, out.node or f.node, construct + (f"[{dtxt}]" if dtxt else ""), "after saving, the file at the given path holds the dump of the given object and nothing else is left behind", got == [["<yaml>", repr(DATA)]] and not left, {"file": repr(got), "other_files": left})
+    if n < 4:
+        ctx.undecided("R19.6.floor", None, None, "floor:R19.6w", f"{n} returning save paths evaluated, confirmed floor is 4")
+
+
 def check_yaml_dialect(ctx: Ctx):
     """R19.6: the YAML object that dumps a configuration and the one that loads it are set up
     alike where that changes how scalars resolve: same `typ`, same `version` (YAML 1.1 reads
@@ -471,7 +566,8 @@ def check_yaml_dialect(ctx: Ctx):
                 continue
             mine = [c for c in it.root.yaml_calls if c[0] == role]
             if role == "dump":
-                ctx.decide("R19.6", f, out.node or f.node, f"{f.qual}:writes", "saving writes the object to the given file on every path", len(mine) == 1 and len(mine[0][5]) >= 2 and mine[0][5][0] == Sym("ARG_data_dict") and mine[0][5][1] in (Sym("ARG_out_file"), Sym("PATH")), {"dump_calls": len(mine), "args": [repr(a) for c in mine for a in c[5]][:4]})
+                # (where the dump ends up is decided on the abstract file system, check_save_writes)
+                ctx.decide("R19.6", f, out.node or f.node, f"{f.qual}:dumps", "saving dumps the given object on every returning path", len(mine) >= 1 and all(c[5] and c[5][0] == Sym("ARG_data_dict") for c in mine), {"dump_calls": len(mine), "args": [repr(a) for c in mine for a in c[5]][:4]})
             for nm, typ, ver, node, reg, cargs in mine:
                 st.add((repr(typ), repr(ver)))
                 need = {repr(Sym("HELPER_CLASS")), repr(Sym("REGISTERED_CLASS"))}
@@ -567,7 +663,7 @@ def check(ctx: Ctx):
     _run_rule(ctx, "check_enums", check_enums)
     _run_rule(ctx, "check_shipped", check_shipped)
     _run_rule(ctx, "check_defaults_untouched", check_defaults_untouched)
-    for fn, rule in ((check_yaml_dialect, "R19.6"), (check_config_names, "R19.7")):
+    for fn, rule in ((check_yaml_dialect, "R19.6"), (check_save_writes, "R19.6"), (check_config_names, "R19.7")):
         try:
             fn(ctx)
         except (Undecided, AnchorMissing) as e:
